@@ -32,7 +32,7 @@ Take(clauses, update) ==
                ELSE update /\ bad' = bad \cup Failing(clauses)
 
 Cfg == [np |-> NP, one |-> G, target |-> 1, nTotal |-> 1, metric |-> Metric,
-        clustering |-> Clustering, clusterEvery |-> ClusterEvery, cap |-> Cap]
+        clustering |-> Clustering, clusterEvery |-> ClusterEvery, cap |-> Cap, minSweeps |-> 1, maxSweeps |-> 2]
 
 MCInit ==
     /\ pc = "ctor" /\ cfg = Cfg
@@ -133,7 +133,7 @@ MCMutateEnd ==
     /\ pc = "mutating" /\ nsw >= 1
     /\ LET o == [slots |-> cur,
                  calls |-> IF ImplVariant = "lostcalls" /\ nsw = 2 THEN calls + NP ELSE calls + nsw * NP,
-                 dEvals |-> nsw * NP]
+                 dEvals |-> nsw * NP, steps |-> nsw]
        IN Take(ME_Clauses(o), MutateEndU(o))
     /\ UNCHANGED <<nextId, atOne>>
 
